@@ -3,12 +3,13 @@
 // Ground truth is the object code: the working tree's wuffs/wuffs-c regenerate
 // base + std (and random generated packages), gcc (and clang) compile it
 // without sanitizers, and the ELF objects are inspected:
-//   * no non-empty writable / TLS section (documented rule in objcheck.go),
-//   * undefined symbols ⊆ {memcpy,memmove,memset,memcmp} ∪ {calloc,free} ∪
+//   - no non-empty writable / TLS section (documented rule in objcheck.go),
+//   - undefined symbols ⊆ {memcpy,memmove,memset,memcmp} ∪ {calloc,free} ∪
 //     compiler-added, calloc/free referenced only from *__alloc,
-//   * exported FUNCTION symbols ⊆ pub methods ∪ initialize/sizeof__/alloc of
+//   - exported FUNCTION symbols ⊆ pub methods ∪ initialize/sizeof__/alloc of
 //     pub structs (the set is computed from the REAL parser's AST),
-//   * memcmp snapshots of receiver + all buffers around every pure call.
+//   - memcmp snapshots of receiver + all buffers around every pure call.
+//
 // Model side (Lean): `decls` (cgen's linkage decisions), `exports`, `tcheck`
 // (the effect rule), `purecall`, `classify` — compared line by line.
 package main
@@ -462,26 +463,22 @@ func main() {
 		}
 	}
 	// whole library: exported = union; static build: only the helpers
-	for si, ws := range wholeStatics {
+	staticByPkg := func(ws *job) map[string][]string {
 		byPkg := map[string][]string{}
 		for _, e := range ws.info.exportedFuncs() {
 			p := pkgOfSymbol(e, append([]string{"base", "private_impl"}, stdNames...))
 			byPkg[p] = append(byPkg[p], e)
 		}
+		return byPkg
+	}
+	firstStatic := staticByPkg(wholeStatic)
+	for si, ws := range wholeStatics {
+		byPkg := staticByPkg(ws)
 		for _, pn := range stdNames {
 			if si == 0 {
 				r.Op("exports static "+strings.TrimPrefix(sums[pn].opLine(), "decls "), joinOrDash(byPkg[pn]))
-			} else if a, b := joinOrDash(byPkg[pn]), sums[pn]; a != "" && b != nil {
-				// further static builds: same set as the first
-				var first []string
-				for _, e := range wholeStatic.info.exportedFuncs() {
-					if pkgOfSymbol(e, append([]string{"base", "private_impl"}, stdNames...)) == pn {
-						first = append(first, e)
-					}
-				}
-				if a != joinOrDash(first) {
-					r.Fail("export-set-differs:"+pn+":static:"+ws.cc+ws.opt, "exported function set of the static-functions build differs between levels", replayFor(ws))
-				}
+			} else if joinOrDash(byPkg[pn]) != joinOrDash(firstStatic[pn]) {
+				r.Fail("export-set-differs:"+pn+":static:"+ws.cc+ws.opt, "exported function set of the static-functions build differs between levels", replayFor(ws))
 			}
 			allowed := sums[pn].allowedExports()
 			for _, e := range byPkg[pn] {
@@ -699,8 +696,11 @@ func checkBase(r *hlib.Run, sb *hlib.StdBuild, mj map[string]*job, mods []string
 	}
 }
 
-// runGenerated: random packages through the working tree's wuffs-c.
-func runGenerated(r *hlib.Run, sb *hlib.StdBuild, work string, n int) {
+// startGenerated: random packages through the working tree's wuffs-c.  The
+// work (wuffs-c, gcc, driver runs) starts at once in the background; the
+// returned function waits for it and reports, in package order.
+func startGenerated(r *hlib.Run, sb *hlib.StdBuild, work string, rands []*hlib.Rand) func() {
+	n := len(rands)
 	wuffsC := filepath.Join(sb.BinDir, "wuffs-c")
 	type res struct {
 		idx      int
@@ -716,10 +716,6 @@ func runGenerated(r *hlib.Run, sb *hlib.StdBuild, work string, n int) {
 		compiled bool
 	}
 	results := make([]*res, n)
-	rands := make([]*hlib.Rand, n)
-	for i := range rands {
-		rands[i] = r.Rand.Fork()
-	}
 	sem := make(chan struct{}, 12)
 	var wg sync.WaitGroup
 	for i := 0; i < n; i++ {
@@ -750,22 +746,26 @@ func runGenerated(r *hlib.Run, sb *hlib.StdBuild, work string, n int) {
 				x.genErr = "summarize: " + err.Error()
 				return
 			}
+			// includes are relative (snapshot.c is a symlink) so that the text of
+			// tu.c / driver.c does not depend on the scratch directory's name
+			os.Symlink(sb.Snapshot, filepath.Join(dir, "snapshot.c"))
 			tu := filepath.Join(dir, "tu.c")
-			os.WriteFile(tu, []byte(fmt.Sprintf("#include \"%s\"\n#include \"%s\"\n", sb.Snapshot, cf)), 0o644)
+			os.WriteFile(tu, []byte(fmt.Sprintf("#include \"snapshot.c\"\n#include \"%s.c\"\n", pkg)), 0o644)
+			ins := []string{tu, sb.Snapshot, cf}
 			P := strings.ToUpper(pkg)
-			x.obj = &job{name: pkg, cc: "gcc", opt: "-O2", defs: []string{"WUFFS_IMPLEMENTATION", "WUFFS_CONFIG__MODULES", "WUFFS_CONFIG__MODULE__" + P}, src: tu, out: filepath.Join(dir, "plain.o"), pic: true}
-			x.objS = &job{name: pkg + "-STATIC", cc: "gcc", opt: "-O2", defs: []string{"WUFFS_IMPLEMENTATION", "WUFFS_CONFIG__MODULES", "WUFFS_CONFIG__MODULE__" + P, "WUFFS_CONFIG__STATIC_FUNCTIONS"}, src: tu, out: filepath.Join(dir, "static.o"), pic: true}
+			x.obj = &job{name: pkg, cc: "gcc", opt: "-O2", defs: []string{"WUFFS_IMPLEMENTATION", "WUFFS_CONFIG__MODULES", "WUFFS_CONFIG__MODULE__" + P}, src: tu, inputs: ins, out: filepath.Join(dir, "plain.o"), pic: true}
+			x.objS = &job{name: pkg + "-STATIC", cc: "gcc", opt: "-O2", defs: []string{"WUFFS_IMPLEMENTATION", "WUFFS_CONFIG__MODULES", "WUFFS_CONFIG__MODULE__" + P, "WUFFS_CONFIG__STATIC_FUNCTIONS"}, src: tu, inputs: ins, out: filepath.Join(dir, "static.o"), pic: true}
 			runJobs([]*job{x.obj, x.objS}, 2)
 			if x.obj.err != nil || x.objS.err != nil {
 				return
 			}
 			x.compiled = true
-			drv, skipped := genPkgDriver(x.sum, sb.Snapshot, cf, rr.Uint64(), 300)
+			drv, skipped := genPkgDriver(x.sum, "snapshot.c", pkg+".c", rr.Uint64(), 300)
 			x.skipped = skipped
 			df := filepath.Join(dir, "driver.c")
 			os.WriteFile(df, []byte(drv), 0o644)
 			exe := filepath.Join(dir, "driver")
-			if err := hlib.CC("gcc", "-O1", "-w", "-o", exe, df); err != nil {
+			if err := cachedCC("gcc", []string{"-O1", "-w"}, []string{df}, true, []string{sb.Snapshot, cf}, exe); err != nil {
 				x.drvErr = err.Error()
 				return
 			}
@@ -776,66 +776,68 @@ func runGenerated(r *hlib.Run, sb *hlib.StdBuild, work string, n int) {
 			}
 		}(i)
 	}
-	wg.Wait()
-	for _, x := range results {
-		pkg := fmt.Sprintf("g%d", x.idx)
-		if x.genErr != "" {
-			// the generator is meant to produce accepted packages only
-			fatal("generated package %s rejected by wuffs-c: %s\n%s", pkg, x.genErr, x.src)
-		}
-		replay := "package " + pkg + " (wuffs-c gen -package_name " + pkg + "):\n" + x.src
-		if !x.compiled {
-			e := x.obj.err
-			if e == nil {
-				e = x.objS.err
+	return func() {
+		wg.Wait()
+		for _, x := range results {
+			pkg := fmt.Sprintf("g%d", x.idx)
+			if x.genErr != "" {
+				// the generator is meant to produce accepted packages only
+				fatal("generated package %s rejected by wuffs-c: %s\n%s", pkg, x.genErr, x.src)
 			}
-			fatal("generated package %s: C compile failed: %v\n%s", pkg, e, x.src)
-		}
-		r.Count("generated-package")
-		declTie(r, x.sum, string(x.csrc), replay)
-		for _, j := range []*job{x.obj, x.objS} {
-			checkObjectCommon(r, j)
-			for _, u := range j.info.Undef {
-				switch {
-				case memFuncs[u], allocFuncs[u], compilerAdded[u]:
-				case strings.HasPrefix(u, "wuffs_base__") || strings.HasPrefix(u, "wuffs_private_impl__"):
-					r.Count("undef:gen:base")
-				default:
-					r.Fail("external-symbol:generated:"+u, "generated package object references "+u, replay)
+			replay := "package " + pkg + " (wuffs-c gen -package_name " + pkg + "):\n" + x.src
+			if !x.compiled {
+				e := x.obj.err
+				if e == nil {
+					e = x.objS.err
 				}
+				fatal("generated package %s: C compile failed: %v\n%s", pkg, e, x.src)
 			}
-		}
-		allowed := x.sum.allowedExports()
-		for _, j := range []*job{x.obj, x.objS} {
-			for _, e := range j.info.exportedFuncs() {
-				if _, ok := allowed[e]; !ok {
-					key := strings.Replace(e, "wuffs_"+pkg+"__", "", 1)
-					// key is made generic (struct/method names are generator-chosen)
-					if strings.HasSuffix(e, "__initialize") {
-						key = "private-struct-initialize"
+			r.Count("generated-package")
+			declTie(r, x.sum, string(x.csrc), replay)
+			for _, j := range []*job{x.obj, x.objS} {
+				checkObjectCommon(r, j)
+				for _, u := range j.info.Undef {
+					switch {
+					case memFuncs[u], allocFuncs[u], compilerAdded[u]:
+					case strings.HasPrefix(u, "wuffs_base__") || strings.HasPrefix(u, "wuffs_private_impl__"):
+						r.Count("undef:gen:base")
+					default:
+						r.Fail("external-symbol:generated:"+u, "generated package object references "+u, replay)
 					}
-					r.Fail("export-not-pub:generated:"+key,
-						fmt.Sprintf("object of generated package exports function %q which is neither a pub method nor initialize/sizeof__/alloc of a pub struct", e), replay)
 				}
 			}
-		}
-		sl := strings.TrimPrefix(strings.Replace(x.sum.opLine(), "decls "+pkg, "decls gpkg", 1), "decls ")
-		ren := func(l []string) string {
-			o := make([]string, len(l))
-			for i, s := range l {
-				o[i] = strings.Replace(s, "wuffs_"+pkg+"__", "wuffs_gpkg__", 1)
+			allowed := x.sum.allowedExports()
+			for _, j := range []*job{x.obj, x.objS} {
+				for _, e := range j.info.exportedFuncs() {
+					if _, ok := allowed[e]; !ok {
+						key := strings.Replace(e, "wuffs_"+pkg+"__", "", 1)
+						// key is made generic (struct/method names are generator-chosen)
+						if strings.HasSuffix(e, "__initialize") {
+							key = "private-struct-initialize"
+						}
+						r.Fail("export-not-pub:generated:"+key,
+							fmt.Sprintf("object of generated package exports function %q which is neither a pub method nor initialize/sizeof__/alloc of a pub struct", e), replay)
+					}
+				}
 			}
-			sort.Strings(o)
-			return joinOrDash(o)
+			sl := strings.TrimPrefix(strings.Replace(x.sum.opLine(), "decls "+pkg, "decls gpkg", 1), "decls ")
+			ren := func(l []string) string {
+				o := make([]string, len(l))
+				for i, s := range l {
+					o[i] = strings.Replace(s, "wuffs_"+pkg+"__", "wuffs_gpkg__", 1)
+				}
+				sort.Strings(o)
+				return joinOrDash(o)
+			}
+			r.Op("exports plain "+sl, ren(x.obj.info.exportedFuncs()))
+			r.Op("exports static "+sl, ren(x.objS.info.exportedFuncs()))
+			r.Nontrivial("gen-exports:" + ren(x.obj.info.exportedFuncs()))
+			if x.drvErr != "" {
+				fatal("generated package %s: driver failed: %s\n%s", pkg, x.drvErr, x.src)
+			}
+			reportDriver(r, x.drvOut, pkg+".", x.sum, replay)
+			r.CountN("driver:method-skipped-unsupported-arg", x.skipped)
 		}
-		r.Op("exports plain "+sl, ren(x.obj.info.exportedFuncs()))
-		r.Op("exports static "+sl, ren(x.objS.info.exportedFuncs()))
-		r.Nontrivial("gen-exports:" + ren(x.obj.info.exportedFuncs()))
-		if x.drvErr != "" {
-			fatal("generated package %s: driver failed: %s\n%s", pkg, x.drvErr, x.src)
-		}
-		reportDriver(r, x.drvOut, pkg+".", x.sum, replay)
-		r.CountN("driver:method-skipped-unsupported-arg", x.skipped)
 	}
 }
 
@@ -887,9 +889,9 @@ func reportDriver(r *hlib.Run, out string, prefix string, s *pkgSum, replay stri
 func genericName(n string) string { return n }
 
 // runStdPure: compile the generated driver against the whole-library object.
-func runStdPure(r *hlib.Run, sb *hlib.StdBuild, work string, sums map[string]*pkgSum, names []string, lib *job) {
+func runStdPure(r *hlib.Run, sb *hlib.StdBuild, work string, sums map[string]*pkgSum, names []string, lib *job, rnd *hlib.Rand) {
 	structs := stdStructs(sums, names)
-	drv := genStdDriver(structs, sb.Snapshot)
+	drv := genStdDriver(structs, "snapshot.c")
 	df := filepath.Join(work, "stdpure.c")
 	os.WriteFile(df, []byte(drv), 0o644)
 	exe := filepath.Join(work, "stdpure")
@@ -897,7 +899,7 @@ func runStdPure(r *hlib.Run, sb *hlib.StdBuild, work string, sums map[string]*pk
 	if r.Thorough {
 		rounds, steps = 12, 120
 	}
-	if err := hlib.CC("gcc", "-O1", "-w", fmt.Sprintf("-DROUNDS=%d", rounds), fmt.Sprintf("-DSTEPS=%d", steps), "-o", exe, df, lib.out); err != nil {
+	if err := cachedCC("gcc", []string{"-O1", "-w", fmt.Sprintf("-DROUNDS=%d", rounds), fmt.Sprintf("-DSTEPS=%d", steps)}, []string{df, lib.out}, true, []string{sb.Snapshot}, exe); err != nil {
 		fatal("std driver: %v", err)
 	}
 	exts := map[string][]string{
@@ -909,7 +911,7 @@ func runStdPure(r *hlib.Run, sb *hlib.StdBuild, work string, sums map[string]*pk
 		"adler32": {".txt"}, "crc32": {".txt"}, "crc64": {".txt"}, "sha256": {".txt"}, "xxhash32": {".txt"}, "xxhash64": {".txt"},
 	}
 	ents, _ := os.ReadDir(filepath.Join(r.Repo, "test", "data"))
-	args := []string{fmt.Sprint(r.Rand.Uint64() >> 1)}
+	args := []string{fmt.Sprint(rnd.Uint64() >> 1)}
 	for _, st := range structs {
 		var cands []string
 		for _, e := range ents {
@@ -925,11 +927,11 @@ func runStdPure(r *hlib.Run, sb *hlib.StdBuild, work string, sums map[string]*pk
 			}
 		}
 		sort.Strings(cands)
-		if len(cands) == 0 || r.Rand.Chance(1, 8) {
+		if len(cands) == 0 || rnd.Chance(1, 8) {
 			args = append(args, "-") // random bytes: error / disabled receiver states
 			r.Count("stdpure:input-random")
 		} else {
-			args = append(args, filepath.Join(r.Repo, "test", "data", cands[r.Rand.Intn(len(cands))]))
+			args = append(args, filepath.Join(r.Repo, "test", "data", cands[rnd.Intn(len(cands))]))
 			r.Count("stdpure:input-file")
 		}
 	}
